@@ -37,6 +37,7 @@ type Op struct {
 
 func OpFromJSON(m map[string]any) Op {
 	var o Op
+	o.Board = []string{}
 	o.Kind, _ = m["kind"].(string)
 	if b, ok := m["board"].([]any); ok {
 		for _, x := range b {
